@@ -263,7 +263,8 @@ theorem a64_items_facts (f : Frame) (harch : f.arch = .a64) (h0 : f.srSize 0 = 8
     ∧ keysOf (a64Items f) = (a64GpIds f).map (fun r => (0, r)) ++ (a64VecIds f).map (fun r => (1, r))
     ∧ mvOk (a64Items f)
     ∧ (∀ it ∈ a64Items f, it.1.2.1 = f.keepBytes it.1.1 ∧ 0 < pBytes it.1 ∧ (it.2 = true → f.hasFP = true))
-    ∧ (a64Items f = [] → a64Total f = 0) := by
+    ∧ (a64Items f = [] → a64Total f = 0)
+    ∧ (f.hasFP = true → ∃ it rest, a64Items f = it :: rest ∧ it.2 = true) := by
   obtain ⟨s0a, s0b⟩ := h0
   obtain ⟨s1a, s1b⟩ := h1
   have hsingle0 : alignUp 8 16 = 16 := by decide
@@ -307,7 +308,7 @@ theorem a64_items_facts (f : Frame) (harch : f.arch = .a64) (h0 : f.srSize 0 = 8
   generalize hG1 : groupItems 1 (f.srSize 1) (f.srSize 1) f.hasFP true (a64VecIds f) (a64GpEnd f) = G1 at *
   have hge := groupEnd_ge (f.srSize 1) 16 (a64VecIds f) (a64GpEnd f)
   rw [eG1] at hge
-  refine ⟨by rw [htotal, hgpEnd], ?_, ?_, ?_, ?_, ?_, ?_, ?_⟩
+  refine ⟨by rw [htotal, hgpEnd], ?_, ?_, ?_, ?_, ?_, ?_, ?_, ?_⟩
   · rw [hitems]; exact itemsAsc_append G0 G1 0 (a64GpEnd f) a1 a2 b1
   · rw [hitems, itemsEnd_append]
     cases hg : G1 with
@@ -417,5 +418,11 @@ theorem a64_items_facts (f : Frame) (harch : f.arch = .a64) (h0 : f.srSize 0 = 8
         cases rs <;> simp [groupItems] at hG1 <;> rw [hnil1] at hG1 <;> exact absurd hG1 (by simp)
     unfold a64Total a64GpEnd
     rw [hz0, hz1]; rfl
+  · intro hfpc
+    have hids : a64GpIds f = 29 :: 30 :: a64RestIds f := by unfold a64GpIds a64RestIds; rw [hfpc]; rfl
+    rw [hids] at hG0
+    simp only [groupItems] at hG0
+    rw [hitems, ← hG0]
+    exact ⟨_, _, rfl, by simp [hfpc]⟩
 
 end AsmjitVerif.Frame
